@@ -1302,7 +1302,9 @@ Theorem fn_write_ok fn p0 data :
   content fn' = overwrite (content fn ++ repeat 0 (off p0 - size fn)) (off p0) data /\
   WF fn' /\ valid fn' p' /\ off p' = off p0 + length data /\ rep p' = Some (repacked fn') /\
   (* other handles *)
-  (forall q, handle_ok fn q -> handle_ok fn' q).
+  (forall q, handle_ok fn q -> handle_ok fn' q) /\
+  repacked fn <= repacked fn' /\
+  (repacked fn' = repacked fn -> map slen (segs fn') = map slen (segs fn)).
 Proof.
   intros Hwf Hh. unfold fn_write.
   set (fn1 := if size fn <? off p0 then fn_truncate mb fn (off p0) else fn).
@@ -1336,10 +1338,14 @@ Proof.
   destruct HL as (A & B & C & D). destruct HR as (R1 & R2 & R3).
   split; [rewrite A, Hc1, Hoff; reflexivity|].
   split; [exact B|]. split; [exact C|]. split; [lia|]. split; [auto|].
-  intros q Hq. unfold handle_ok in *. destruct (rep q) as [r|]; [|exact I].
-  destruct Hq as [Hle Hvq]. split; [lia|].
+  split.
+  { intros q Hq. unfold handle_ok in *. destruct (rep q) as [r|]; [|exact I].
+    destruct Hq as [Hle Hvq]. split; [lia|].
+    intros Hr. assert (E1 : repacked fn1 = repacked fn) by lia. assert (E2 : repacked fn' = repacked fn1) by lia.
+    rewrite (Hsame1 E1) in *.
+    eapply valid_same_lengths; [apply R3; exact E2|]. apply Hvq. lia. }
+  split; [lia|].
   intros Hr. assert (E1 : repacked fn1 = repacked fn) by lia. assert (E2 : repacked fn' = repacked fn1) by lia.
-  rewrite (Hsame1 E1) in *.
-  eapply valid_same_lengths; [apply R3; exact E2|]. apply Hvq. lia.
+  rewrite <- (Hsame1 E1). apply R3; exact E2.
 Qed.
 End WriteTop.
